@@ -13,6 +13,28 @@ of Props/C02.lean.
   T5  + many-to-one nodes (all three kinds)                  invariant `FlowN.HI`     Proofs/FlowM1..9, FlowN1..21
   T6  + actions returning their input packet (pass-through)                           Proofs/FlowN18s, FlowN19
   T7  + actions of any kind (also one-to-one) returning nothing                       Proofs/FlowN19
+
+The statement WITHOUT a class hypothesis is `C02.flow_answers_eq_ref_all` (Props/C02All.lean): every well-formed
+workflow (`C02.WorkflowWF` = `FlowN.GraphWF5`), every schedule, every result shape; T1 … T7 are corollaries.
+
+What the union of T1 … T7 – and `flow_answers_eq_ref_all` – leaves out of the property's quantifier ("for all
+acyclic workflows of the three node kinds, all payload routings incl. drop and error, all arrival interleavings"):
+ * result shapes / routings: NOTHING. An action may return a new packet, its in packet, an error packet (error port
+   linked or not: an error nobody accepts is answered with itself through the tracer, in arrival order –
+   `C02.flow_unlinked_error_instance`), new packets / the in packet on any out ports, nothing; unlinked out ports,
+   fan-out, fan-in. (The classes T1 … T7 restricted WHICH node kind may return WHICH shape – e.g. `many` only on
+   one-to-many nodes –; `FlowN.prog_any` covers every kind × shape, including the `Rel`s that no Go action signature
+   can produce.)
+ * interleavings: NOTHING at the granularity of the Flow machine (`Ext`: send / an action returns / a sink answers,
+   each followed by `settle`: every enabled tracer call of every thread and every pending answer delivery, in one
+   fixed order). Interleavings of the individual `Link`/`Write`/`Receive` calls of DIFFERENT nodes within one settle
+   phase are not quantified over at flow level; per node they are (`C02.node_contract`, every schedule of `Node.Step`).
+ * workflows: only the encoding bounds of `Uniflow.Flow` – at most 1000 nodes, at most 62 out ports per one-to-many
+   node (was 6: the pump `maxW` is now 64), at most 63 in-ports per many-to-one node – and the well-formedness every
+   real workflow has (links into existing in-ports, no in-port twice on one out port, source linked). See the header
+   of Props/C02All.lean for why the bounds are artefacts and what removing them takes.
+ * one process per workflow run (the model is per process; several processes through the same nodes are exercised
+   by the harness only), writers / readers never close (teardown is C03's), acyclic workflows only.
 -/
 import Uniflow.Props.C02
 import Uniflow.Proofs.FlowInv16
@@ -372,8 +394,7 @@ every reachable state of class T5 -/
 theorem C02.flow_invariant_T5 (kinds : List Kind) (links : List (Nat × List Tgt)) (es : List Ext)
     (hc : C02.ClassT5 kinds links es) :
     ∃ aa, Uniflow.FlowN.HI kinds links aa Uniflow.FlowInv.D0 (runExt (initG kinds links) es) :=
-  Uniflow.FlowN.HIe_runExt kinds links hc.1 es _ (fun e he => Uniflow.FlowN.extT7_of_extT6 kinds e (Uniflow.FlowN.extT6_of_extT5 kinds e (hc.2 e he)))
-    (Uniflow.FlowN.HIe_init kinds links hc.1)
+  Uniflow.FlowN.HIe_runExt kinds links hc.1 es _ (Uniflow.FlowN.HIe_init kinds links hc.1)
 
 open Uniflow.Flow in
 /-- **The end-to-end statement for class T5** (all three node kinds, fan-out and fan-in, join nodes) –
@@ -386,8 +407,7 @@ theorem C02.flow_answers_eq_ref_T5 :
     (∀ (i : Nat) (a : Ans), g.resp[i]? = some a → ∃ p, g.roots[i]? = some p ∧ ∃ f, refAns g.log f p = some a) ∧
     (quiescent g = true → anyPanic g = false → refAnswers g = some g.resp) := by
   intro kinds links es _ _ _ hc
-  have hI := Uniflow.FlowN.HIe_runExt kinds links hc.1 es _ (fun e he => Uniflow.FlowN.extT7_of_extT6 kinds e (Uniflow.FlowN.extT6_of_extT5 kinds e (hc.2 e he)))
-    (Uniflow.FlowN.HIe_init kinds links hc.1)
+  have hI := Uniflow.FlowN.HIe_runExt kinds links hc.1 es _ (Uniflow.FlowN.HIe_init kinds links hc.1)
   exact ⟨Uniflow.FlowN.HIe_safety kinds links _ hI,
     fun hq _ => Uniflow.FlowN.HIe_quiescent_ref_eq kinds links hc.1 _ hI hq⟩
 
@@ -434,8 +454,7 @@ open Uniflow.Flow in
 theorem C02.flow_invariant_T6 (kinds : List Kind) (links : List (Nat × List Tgt)) (es : List Ext)
     (hc : C02.ClassT6 kinds links es) :
     ∃ aa, Uniflow.FlowN.HI kinds links aa Uniflow.FlowInv.D0 (runExt (initG kinds links) es) :=
-  Uniflow.FlowN.HIe_runExt kinds links hc.1 es _ (fun e he => Uniflow.FlowN.extT7_of_extT6 kinds e (hc.2 e he))
-    (Uniflow.FlowN.HIe_init kinds links hc.1)
+  Uniflow.FlowN.HIe_runExt kinds links hc.1 es _ (Uniflow.FlowN.HIe_init kinds links hc.1)
 
 open Uniflow.Flow in
 /-- **The end-to-end statement for class T6** – `C02.flow_answers_eq_ref_full` with the class hypothesis
@@ -449,8 +468,7 @@ theorem C02.flow_answers_eq_ref_T6 :
     (∀ (i : Nat) (a : Ans), g.resp[i]? = some a → ∃ p, g.roots[i]? = some p ∧ ∃ f, refAns g.log f p = some a) ∧
     (quiescent g = true → anyPanic g = false → refAnswers g = some g.resp) := by
   intro kinds links es _ _ hc
-  have hI := Uniflow.FlowN.HIe_runExt kinds links hc.1 es _ (fun e he => Uniflow.FlowN.extT7_of_extT6 kinds e (hc.2 e he))
-    (Uniflow.FlowN.HIe_init kinds links hc.1)
+  have hI := Uniflow.FlowN.HIe_runExt kinds links hc.1 es _ (Uniflow.FlowN.HIe_init kinds links hc.1)
   exact ⟨Uniflow.FlowN.HIe_safety kinds links _ hI,
     fun hq _ => Uniflow.FlowN.HIe_quiescent_ref_eq kinds links hc.1 _ hI hq⟩
 
@@ -531,7 +549,7 @@ theorem C02.flow_answers_eq_ref_T7 :
     (∀ (i : Nat) (a : Ans), g.resp[i]? = some a → ∃ p, g.roots[i]? = some p ∧ ∃ f, refAns g.log f p = some a) ∧
     (quiescent g = true → anyPanic g = false → refAnswers g = some g.resp) := by
   intro kinds links es _ _ hc
-  have hI := Uniflow.FlowN.HIe_runExt kinds links hc.1 es _ hc.2 (Uniflow.FlowN.HIe_init kinds links hc.1)
+  have hI := Uniflow.FlowN.HIe_runExt kinds links hc.1 es _ (Uniflow.FlowN.HIe_init kinds links hc.1)
   exact ⟨Uniflow.FlowN.HIe_safety kinds links _ hI,
     fun hq _ => Uniflow.FlowN.HIe_quiescent_ref_eq kinds links hc.1 _ hI hq⟩
 
